@@ -7,6 +7,8 @@ from contracts import gf_rt as G
 def main(tier):
     rep = Report('C10', tier)
     runner.run(rep, 'GFCrystalcalc::C10-contract', G.w_gf, [(cid, tier, SEED) for cid in G.ids(tier)], 'onsager/GFcalc.py::GFCrystalcalc.__call__')
+    from contracts import degree_c
+    degree_c.run(rep, [k for k in degree_c.CONTRACTS if k.startswith('GFCrystalcalc.')])      # uniform rate scaling: G has degree -1, D degree +1, for all inputs
     from vf import extract
     for q in ('GFCrystalcalc.__init__', 'GFCrystalcalc.SetRates', 'GFCrystalcalc.__call__', 'GFCrystalcalc.BreakdownGroups', 'GFCrystalcalc.SymmRates', 'GFCrystalcalc.DiagGamma', 'GFCrystalcalc.Diffusivity',
               'GFCrystalcalc.BlockRotateOmegaTaylor', 'GFCrystalcalc.BlockInvertOmegaTaylor', 'GFCrystalcalc.FourierTransformJumps', 'GFCrystalcalc.TaylorExpandJumps', 'GFCrystalcalc.networkcount', 'Fnl_p', 'Fnl_u'):
